@@ -134,7 +134,254 @@ theorem entitledShared_of_no_shared (s : Server) (pk : Msg) (hsh : (subscribers 
     · exact absurd ((mem_sharedPicks _ _ _ _).mp hs) (hnp _ _)
   · exact Or.inl
 
+/-! ## One receiver per candidate entry, in every state reachable by a sequential history -/
+
+/-- client `c` is the member picked for the candidate entry `g` (one FILTER of one share name) -/
+def PickedFor (s : Server) (topic : Str) (g : Str × List (Str × Sub)) (c : Str) : Prop :=
+  ∃ k, (visitOrder s topic)[k]? = some g ∧ ChosenAt s.pickSeed (visitOrder s topic) k c
+
+/-- the connection of the client registered as `c` is written a PUBLISH by the publication of `pk` -/
+def WrittenTo (s : Server) (pk : Msg) (c : Str) : Prop :=
+  ∃ i, (c, i) ∈ s.clients ∧
+    ∃ ver m me, Out.wrote (getObj s i).conn (.publish ver m me) ∈ (publishToSubscribers s pk).2
+
+/-- member `c` can be served: registered, its connection open (not the inline client, peer not gone), authorised to
+    read the topic, and — if `c` is the publisher itself — No Local is set on none of its matching subscriptions,
+    plain or shared (F03: one of them would exclude it from all).  Independent of the seeds. -/
+def Servable (s : Server) (pk : Msg) (c : Str) : Prop :=
+  (∃ i, (c, i) ∈ s.clients ∧ (getObj s i).isOpen = true ∧ (getObj s i).inline = false ∧
+    (getObj s i).peerGone = false) ∧
+  aclOk s c pk.topic false = true ∧
+  (pk.origin = c →
+    (∀ sub, (c, sub) ∈ (subscribers s.topics pk.topic).subs → sub.noLocal = false) ∧
+    ∀ g ∈ (subscribers s.topics pk.topic).shared, ∀ sub, (c, sub) ∈ g.2 → sub.noLocal = false)
+
+theorem pickedFor_of_pickedWith {s : Server} {topic c : Str} {sub : Sub} (h : PickedWith s topic c sub) :
+    ∃ g ∈ (subscribers s.topics topic).shared, PickedFor s topic g c := by
+  obtain ⟨k, hk⟩ := h
+  obtain ⟨g, hg, _⟩ := pickAt_mem _ _ _ _ hk
+  exact ⟨g, (visitOrder_perm s topic).mem_iff.mp (List.mem_of_getElem? hg), k, hg, sub, hk⟩
+
+/-- state level, on the invariants: for a matching candidate entry all of whose members can be served, exactly one
+    member is picked for it and written the message -/
+theorem C06_one_receiver_per_candidate_inv (s : Server) (hw : WF s) (hcd : ConnDistinct s) (pk : Msg)
+    (hig : pk.ignore = false) (ht : pk.type = 3) (hq : pk.qos = 0)
+    (g : Str × List (Str × Sub)) (hg : g ∈ (subscribers s.topics pk.topic).shared)
+    (hserv : ∀ m ∈ g.2, Servable s pk m.1) :
+    ExactlyOne fun c => c ∈ g.2.map Prod.fst ∧ PickedFor s pk.topic g c ∧ WrittenTo s pk c := by
+  have hgv : g ∈ visitOrder s pk.topic := (visitOrder_perm s pk.topic).mem_iff.mpr hg
+  obtain ⟨k, hk⟩ := List.getElem?_of_mem hgv
+  obtain ⟨cs, hp, hm⟩ := pickAt_some s.pickSeed _ k g hk ((subscribers_sharedOK s.topics pk.topic).ne g hg)
+  obtain ⟨⟨i, hreg, ho, hi, hpg⟩, hacl, hnl⟩ := hserv cs hm
+  have hpw : PickedWith s pk.topic cs.1 cs.2 := ⟨k, hp⟩
+  have hent : EntitledShared s pk (getObj s i).conn := by
+    refine ⟨cs.1, i, hreg, rfl, ho, hi, hpg, hacl, Or.inr ⟨cs.2, hpw⟩, ?_⟩
+    rintro ⟨horig, hex⟩
+    obtain ⟨n1, n2⟩ := hnl horig
+    rcases hex with ⟨sub, h, hn⟩ | ⟨sub, h, hn⟩
+    · rw [n1 sub h] at hn; cases hn
+    · obtain ⟨g', hg', hmem⟩ := pickedWith_member h
+      rw [n2 g' hg' sub hmem] at hn; cases hn
+  have hwr := (publishToSubscribers_writes_exact_shared s hw hcd pk hig ht hq (getObj s i).conn).1.mpr hent
+  refine ⟨cs.1, ⟨List.mem_map.mpr ⟨cs, hm, rfl⟩, ⟨k, hk, cs.2, hp⟩, i, hreg, hwr⟩, ?_⟩
+  rintro c' ⟨_, ⟨k', hk', sub', hp'⟩, _⟩
+  have hlt : k < (visitOrder s pk.topic).length := by
+    rcases List.getElem?_eq_some_iff.mp hk with ⟨h, _⟩
+    exact h
+  have hkk : k = k' := (List.getElem?_inj hlt (visitOrder_nodup s pk.topic)).mp (hk.trans hk'.symm)
+  subst hkk
+  rw [hp] at hp'
+  cases hp'
+  rfl
+
+/-- a client that has no matching plain subscription and was picked for no candidate entry is written nothing -/
+theorem C06_unpicked_receives_nothing (s : Server) (hw : WF s) (hcd : ConnDistinct s) (pk : Msg)
+    (hig : pk.ignore = false) (ht : pk.type = 3) (hq : pk.qos = 0) (c : Str) (i : Nat)
+    (hreg : (c, i) ∈ s.clients) (hin : (getObj s i).inline = false)
+    (hplain : c ∉ (subscribers s.topics pk.topic).subs.map Prod.fst)
+    (hnp : ¬ ∃ g ∈ (subscribers s.topics pk.topic).shared, PickedFor s pk.topic g c) :
+    ¬ ∃ ver m me, Out.wrote (getObj s i).conn (.publish ver m me) ∈ (publishToSubscribers s pk).2 := by
+  intro hwr
+  obtain ⟨cid, i', h1, h2, _, h4, _, _, h6, _⟩ :=
+    (publishToSubscribers_writes_exact_shared s hw hcd pk hig ht hq (getObj s i).conn).1.mp hwr
+  have vi := hw.clients_valid _ _ hreg
+  have vi' := hw.clients_valid _ _ h1
+  have hii : i' = i := hcd i' i vi'.1 vi.1 h4 hin h2
+  subst hii
+  have hc : cid = c := vi'.2.symm.trans vi.2
+  subst hc
+  rcases h6 with ⟨sub, h⟩ | ⟨sub, h⟩
+  · exact hplain (List.mem_map.mpr ⟨_, h, rfl⟩)
+  · exact hnp (pickedFor_of_pickedWith h)
+
+/-- the state with the resolution of Go's map order replaced -/
+def withSeeds (s : Server) (pickSeed orderSeed : Nat) : Server :=
+  { s with pickSeed := pickSeed, orderSeed := orderSeed }
+
+theorem withSeeds_reach {caps : Caps} {s : Server} (hr : ReachSeq caps s) (p o : Nat) : ReachSeq caps (withSeeds s p o) :=
+  hr.config ⟨rfl, rfl, rfl, rfl, rfl, rfl, rfl, rfl⟩
+
+/-- **Item 3 — `C06_one_receiver_per_candidate_seq_partial`.**  `s`: any state reached from `init caps` by a
+    sequential history (ops that are not schedule ops, connection numbers fresh, interleaved with configuration
+    changes: `ReachSeq`).  `pk`: a QoS 0 publication.  `g`: a candidate entry matching the topic (an entry of
+    `(subscribers s.topics pk.topic).shared`: one FILTER of one share name, with the member subscriptions filed under
+    it) all of whose members can be served (`Servable`: registered, open, authorised; the publisher, if a member, has
+    No Local nowhere).  Then for EVERY resolution `pickSeed`, `orderSeed` of Go's map order:
+
+    1. exactly one client is a member of `g`, picked for `g`, and written the message;
+    2. a registered network client without a matching plain subscription that was picked for NO candidate entry is
+       written nothing — in particular the members of `g` that were not picked (unless they receive on another
+       account: a plain subscription of their own, or another candidate entry);
+    3. no connection is written more than one PUBLISH.
+
+    Partial: QoS 0 (no in-flight bookkeeping: "or queue" is not covered), sequential histories, and "candidate
+    entry" instead of "share group" (F06) — see `C06_one_receiver_per_group_seq_partial` and `C06_full`. -/
+theorem C06_one_receiver_per_candidate_seq_partial (caps : Caps) (s : Server) (hr : ReachSeq caps s) (pk : Msg)
+    (hig : pk.ignore = false) (ht : pk.type = 3) (hq : pk.qos = 0)
+    (g : Str × List (Str × Sub)) (hg : g ∈ (subscribers s.topics pk.topic).shared)
+    (hserv : ∀ m ∈ g.2, Servable s pk m.1) (pickSeed orderSeed : Nat) :
+    (ExactlyOne fun c => c ∈ g.2.map Prod.fst ∧ PickedFor (withSeeds s pickSeed orderSeed) pk.topic g c ∧
+      WrittenTo (withSeeds s pickSeed orderSeed) pk c) ∧
+    (∀ c i, (c, i) ∈ s.clients → (getObj s i).inline = false →
+      c ∉ (subscribers s.topics pk.topic).subs.map Prod.fst →
+      (¬ ∃ g' ∈ (subscribers s.topics pk.topic).shared, PickedFor (withSeeds s pickSeed orderSeed) pk.topic g' c) →
+      ¬ ∃ ver m me, Out.wrote (getObj s i).conn (.publish ver m me) ∈
+        (publishToSubscribers (withSeeds s pickSeed orderSeed) pk).2) ∧
+    ∀ n, ((publishToSubscribers (withSeeds s pickSeed orderSeed) pk).2.filterMap pubConn).count n ≤ 1 := by
+  have hr' := withSeeds_reach hr pickSeed orderSeed
+  have hw := hr'.inv.2.1
+  have hcd := hr'.inv.2.2.1.distinct
+  refine ⟨C06_one_receiver_per_candidate_inv _ hw hcd pk hig ht hq g hg hserv, ?_, ?_⟩
+  · intro c i hreg hin hplain hnp
+    exact C06_unpicked_receives_nothing _ hw hcd pk hig ht hq c i hreg hin hplain hnp
+  · intro n
+    exact (publishToSubscribers_writes_exact_shared _ hw hcd pk hig ht hq n).2.2.2.1
+
+/-! ### … read as "share group", outside the F06 situation -/
+
+/-- ¬F06 for this topic: each share name has at most one matching filter (decidable) -/
+def NoF06 (r : Subscribers) : Prop :=
+  ∀ g ∈ r.shared, ∀ g' ∈ r.shared, shareGroup g.1 = shareGroup g'.1 → g.1 = g'.1
+
+instance (r : Subscribers) : Decidable (NoF06 r) := by unfold NoF06; infer_instance
+
+/-- `c` holds a subscription of share group `G` that matches the topic -/
+def GroupMember (r : Subscribers) (G c : Str) : Prop :=
+  ∃ g ∈ r.shared, shareGroup g.1 = G ∧ c ∈ g.2.map Prod.fst
+
+/-- `c` is the member picked for (a candidate entry of) share group `G` -/
+def PickedForGroup (s : Server) (topic G c : Str) : Prop :=
+  ∃ g ∈ (subscribers s.topics topic).shared, shareGroup g.1 = G ∧ PickedFor s topic g c
+
+theorem entry_eq_of_key {m : List (Str × List (Str × Sub))} (h : SharedOK m) {g g' : Str × List (Str × Sub)}
+    (hg : g ∈ m) (hg' : g' ∈ m) (e : g.1 = g'.1) : g = g' := by
+  have a := assocGet_of_mem_nodup m g.1 g.2 h.keys hg
+  have b := assocGet_of_mem_nodup m g'.1 g'.2 h.keys hg'
+  rw [e, b] at a
+  exact Prod.ext e (Option.some.inj a).symm
+
+/-- **Item 3, second half.**  If each share name has at most one filter matching the topic (`NoF06`), "candidate
+    entry" is "share group": for every share group `G` with a matching member subscription, all of whose matching
+    members can be served, and every resolution of Go's map order, exactly one member of the group is picked for
+    the group and written the message. -/
+theorem C06_one_receiver_per_group_seq_partial (caps : Caps) (s : Server) (hr : ReachSeq caps s) (pk : Msg)
+    (hig : pk.ignore = false) (ht : pk.type = 3) (hq : pk.qos = 0)
+    (hno : NoF06 (subscribers s.topics pk.topic)) (G : Str)
+    (hG : ∃ g ∈ (subscribers s.topics pk.topic).shared, shareGroup g.1 = G)
+    (hserv : ∀ c, GroupMember (subscribers s.topics pk.topic) G c → Servable s pk c) (pickSeed orderSeed : Nat) :
+    ExactlyOne fun c => GroupMember (subscribers s.topics pk.topic) G c ∧
+      PickedForGroup (withSeeds s pickSeed orderSeed) pk.topic G c ∧ WrittenTo (withSeeds s pickSeed orderSeed) pk c := by
+  obtain ⟨g, hg, hgG⟩ := hG
+  have hok := subscribers_sharedOK s.topics pk.topic
+  have huniq : ∀ g' ∈ (subscribers s.topics pk.topic).shared, shareGroup g'.1 = G → g' = g := by
+    intro g' hg' e
+    exact entry_eq_of_key hok hg' hg (hno g' hg' g hg (e.trans hgG.symm))
+  obtain ⟨c, ⟨h1, h2, h3⟩, hu⟩ := (C06_one_receiver_per_candidate_seq_partial caps s hr pk hig ht hq g hg
+    (fun m hm => hserv m.1 ⟨g, hg, hgG, List.mem_map.mpr ⟨m, hm, rfl⟩⟩) pickSeed orderSeed).1
+  refine ⟨c, ⟨⟨g, hg, hgG, h1⟩, ⟨g, hg, hgG, h2⟩, h3⟩, ?_⟩
+  rintro c' ⟨⟨g1, hg1, e1, m1⟩, ⟨g2, hg2, e2, p2⟩, w⟩
+  have a1 := huniq g1 hg1 e1
+  have a2 := huniq g2 hg2 e2
+  subst a1
+  subst a2
+  exact hu c' ⟨m1, p2, w⟩
+
+/-! ### C06 as stated, and its refutation (F06) -/
+
+/-- **C06 as stated** (kept visible; NOT proved — false of the model and of the broker, `C06_full_false_F06`): in
+    any history, for every published message (here: QoS 0, so "receive" is "is written"), every resolution of Go's
+    map order and every share group with at least one member subscription matching the topic — all of them
+    servable —, exactly one member of that GROUP receives the message. -/
+def C06_full : Prop :=
+  ∀ (caps : Caps) (ops : List Op), OpsFresh (init caps) ops →
+    ∀ (pickSeed orderSeed : Nat) (pk : Msg), pk.type = 3 → pk.ignore = false → pk.qos = 0 →
+      ∀ G : Str, (∃ g ∈ (subscribers (run (init caps) ops).topics pk.topic).shared, shareGroup g.1 = G) →
+        (∀ c, GroupMember (subscribers (run (init caps) ops).topics pk.topic) G c →
+          Servable (run (init caps) ops) pk c) →
+        ExactlyOne fun c => GroupMember (subscribers (run (init caps) ops).topics pk.topic) G c ∧
+          WrittenTo (withSeeds (run (init caps) ops) pickSeed orderSeed) pk c
+
+/-- F06 as a history: `c1` holds `$share/g/a/+`, `c2` holds `$share/g/a/#` — one share name, two filters -/
+def f06History : List Op :=
+  [.connect 1 { ver := 5, id := [99, 49] },
+   .recv 1 (.subscribe 1 0 [{ filter := [36,115,104,97,114,101,47,103,47,97,47,43] }]),
+   .connect 2 { ver := 5, id := [99, 50] },
+   .recv 2 (.subscribe 1 0 [{ filter := [36,115,104,97,114,101,47,103,47,97,47,35] }])]
+
+/-- a third client publishes `a/b`, QoS 0 -/
+def f06Msg : Msg := { topic := [97, 47, 98], payload := [1], origin := [112] }
+
+/-- both members of share group `g` are written the message: **C06 as stated is false of the model (and of the
+    broker: recorded finding F06)** -/
+theorem C06_full_false_F06 : ¬ C06_full := by
+  intro h
+  have hsh : ((subscribers (run (init {}) f06History).topics f06Msg.topic).shared.map
+      fun g => (g.1, g.2.map Prod.fst)) =
+      [([36,115,104,97,114,101,47,103,47,97,47,43], [[99, 49]]),
+       ([36,115,104,97,114,101,47,103,47,97,47,35], [[99, 50]])] := by decide
+  have hmem : ∀ c, GroupMember (subscribers (run (init {}) f06History).topics f06Msg.topic) [103] c →
+      c = [99, 49] ∨ c = [99, 50] := by
+    rintro c ⟨g, hg, _, hc⟩
+    have : (g.1, g.2.map Prod.fst) ∈ ((subscribers (run (init {}) f06History).topics f06Msg.topic).shared.map
+        fun g => (g.1, g.2.map Prod.fst)) := List.mem_map.mpr ⟨g, hg, rfl⟩
+    rw [hsh] at this
+    simp only [List.mem_cons, List.not_mem_nil, or_false, Prod.mk.injEq] at this
+    rcases this with ⟨_, e⟩ | ⟨_, e⟩ <;> rw [e] at hc <;> simp at hc
+    · exact Or.inl hc
+    · exact Or.inr hc
+  have hserv : ∀ c, GroupMember (subscribers (run (init {}) f06History).topics f06Msg.topic) [103] c →
+      Servable (run (init {}) f06History) f06Msg c := by
+    intro c hc
+    rcases hmem c hc with rfl | rfl
+    · exact ⟨⟨1, by decide, by decide, by decide, by decide⟩, by decide, fun e => absurd e (by decide)⟩
+    · exact ⟨⟨2, by decide, by decide, by decide, by decide⟩, by decide, fun e => absurd e (by decide)⟩
+  obtain ⟨c, _, hu⟩ := h {} f06History (by decide) 0 0 f06Msg rfl rfl rfl [103]
+    ⟨([36,115,104,97,114,101,47,103,47,97,47,43], [([99, 49], { filter := [36,115,104,97,114,101,47,103,47,97,47,43] })]),
+      by decide, by decide⟩ hserv
+  have ho : (publishToSubscribers (withSeeds (run (init {}) f06History) 0 0) f06Msg).2.filterMap pubConn = [1, 2] := by
+    decide
+  have m1 : GroupMember (subscribers (run (init {}) f06History).topics f06Msg.topic) [103] [99, 49] :=
+    ⟨([36,115,104,97,114,101,47,103,47,97,47,43], [([99, 49], { filter := [36,115,104,97,114,101,47,103,47,97,47,43] })]),
+      by decide, by decide, by decide⟩
+  have m2 : GroupMember (subscribers (run (init {}) f06History).topics f06Msg.topic) [103] [99, 50] :=
+    ⟨([36,115,104,97,114,101,47,103,47,97,47,35], [([99, 50], { filter := [36,115,104,97,114,101,47,103,47,97,47,35] })]),
+      by decide, by decide, by decide⟩
+  have w1 : WrittenTo (withSeeds (run (init {}) f06History) 0 0) f06Msg [99, 49] :=
+    ⟨1, by decide, mem_pubConns.mp (by rw [ho]; decide)⟩
+  have w2 : WrittenTo (withSeeds (run (init {}) f06History) 0 0) f06Msg [99, 50] :=
+    ⟨2, by decide, mem_pubConns.mp (by rw [ho]; decide)⟩
+  have e := (hu _ ⟨m1, w1⟩).trans (hu _ ⟨m2, w2⟩).symm
+  revert e
+  decide
+
+/-- … while the restricted theorem applies to that very state: the F06 situation is present (`NoF06` fails), and
+    each of the two candidate entries has exactly one receiver -/
+example : ¬ NoF06 (subscribers (run (init {}) f06History).topics f06Msg.topic) := by decide
+
 end Mochi.Broker
 
 #print axioms Mochi.Broker.selectShared_exact
+#print axioms Mochi.Broker.C06_one_receiver_per_candidate_seq_partial
+#print axioms Mochi.Broker.C06_one_receiver_per_group_seq_partial
+#print axioms Mochi.Broker.C06_full_false_F06
 #print axioms Mochi.Broker.publishToSubscribers_writes_exact_shared
